@@ -72,7 +72,15 @@ func DataSort(name string, fields []Field) *Sort {
 	return s
 }
 
-func (s *Sort) String() string { return s.Name }
+func (s *Sort) String() string {
+	switch s.Kind {
+	case KData:
+		return smtIdent(s.Name)
+	case KArray:
+		return "(Array " + s.Key.String() + " " + s.Elem.String() + ")"
+	}
+	return s.Name
+}
 
 func (s *Sort) FieldIndex(name string) int {
 	for i, f := range s.Fields {
